@@ -179,73 +179,93 @@ def check(ctx, rep, upto=None):
                     cv2 = fs2.get(cellf)
                     okd = okd and cv2 is not None and term_callee_is(cv2, 'core::cell::UnsafeCell::new') and cv2[2][0][0] == 'adt' and cv2[2][0][2] == 'None'
             rep.ob('R4', 'default/initial-state', okd, m['new'].where(), 'Default::default() = (INITIAL, None)' if okd else 'Default::default() does not start as (INITIAL, None)')
-    # ---- get(): R3
-    gb = inl(mac, m['get'])
-    Tg = Terms(gb)
-    acc = cell_accesses(gb, Tg, cellf)
-    rep.sites(len(acc))
-    K = None
-    okg = bool(acc)
-    why = 'get() never reads the cell'
-    for bi, kind in acc:
-        if kind == 'write':
-            okg = False
-            why = 'get() writes the cell'
-            continue
-        gs = guards_of(Tg, bi) or []
-        good = False
-        for dt, labels, sbi in gs:
-            d = norm(dt)
-            if term_callee_is(d, AT + 'load') and self_field_name(d[2][0]) == statef and len(labels) == 1 and list(labels)[0][0] == 'int':
-                # `match state.load(..) { COMPLETE => .., _ => .. }`: a switch on the loaded value itself
-                o = ordering(d[2][1])
-                if o in ('Acquire', 'SeqCst'):
-                    good = True
-                    K = str(list(labels)[0][1])
-                else:
-                    why = 'the state is loaded with Ordering::%s before the cell is read: seeing COMPLETE does not ' \
-                          'synchronise with the writer\'s release store, the read of the cell races with the initialising write' % o
-            if d[0] == 'bin' and d[1] in ('Eq', 'Ne'):
-                a, b = d[2], d[3]
-                ld, cst = (a, b) if term_callee_is(a, AT + 'load') else (b, a)
-                cst = evalc(mac, cst)
-                if term_callee_is(ld, AT + 'load') and self_field_name(ld[2][0]) == statef and cst[0] == 'const':
-                    want_truth = (d[1] == 'Eq')
-                    if ('bool', want_truth) in labels:
-                        o = ordering(ld[2][1])
-                        if o in ('Acquire', 'SeqCst'):
-                            good = True
-                            K = cst[2]
-                        else:
-                            why = 'the state is loaded with Ordering::%s before the cell is read: seeing COMPLETE does not ' \
-                                  'synchronise with the writer\'s release store, the read of the cell races with the initialising write' % o
-        if not good:
-            okg = False
-            if why.startswith('get() never'):
-                why = 'a read of the cell is not dominated by `state.load(Acquire) == COMPLETE`'
-    rep.ob('R3', 'get/acquire-before-read', okg, m['get'].where(), 'the cell is read only after load(state, Acquire|SeqCst) == %s' % K if okg else why)
-    if okg:
-        # the other edge returns None without touching the cell
-        for sbi in range(len(gb.blocks)):
-            if gb.blocks[sbi]['term']['k'] != 'switch' or gb.blocks[sbi]['cleanup']:
+    # ---- get() (and any other method of the holder that reads the cell): R3
+    def reader_check(rname, rbody, view_ok=False):
+        gb = inl(mac, rbody)
+        Tg = Terms(gb)
+        acc = cell_accesses(gb, Tg, cellf)
+        rep.sites(len(acc))
+        K = None
+        okg = bool(acc)
+        okg_any = bool(acc)      # the same, whatever the ordering of the load (the part C17 needs: a value only when COMPLETE)
+        K_any = None
+        why = '%s() never reads the cell' % rname
+        for bi, kind in acc:
+            if kind == 'write':
+                okg = okg_any = False
+                why = '%s() writes the cell' % rname
                 continue
-            dt, edges = Tg.switch_facts(sbi)
-            d = norm(dt)
-            if d[0] == 'bin' and any(term_callee_is(x, AT + 'load') for x in (d[2], d[3])):
-                neg = [s for s, labs in edges.items() if ('bool', d[1] != 'Eq') in labs]
-                r = ret_terms(Tg, neg)
-                okn = bool(r) and all(x[0] == 'adt' and x[2] == 'None' for x in r) and not any(bi in reach(gb, neg) for bi, _ in acc)
-                rep.ob('R3', 'get/none-until-complete', okn, m['get'].where(), 'any other state => None, cell untouched' if okn else 'get() can return something / touch the cell before the state is COMPLETE')
-        rts = ret_terms(Tg, [0])
-        somes = [r for r in rts if not (r[0] == 'adt' and r[2] == 'None')]
-        def clone_of_cell(r):
-            # Option<Arc<T>>::clone(&*cell)  or  Some(Arc::clone(<view into *cell>))
-            if r[0] == 'adt' and r[2] == 'Some' and r[3]:
-                r = norm(r[3][0][1])
-            return r[0] == 'call' and isinstance(r[1], str) and r[1].endswith('core::clone::Clone>::clone') and len(r[2]) == 1 and \
-                any(cell_ptr(y, cellf) for y in walk(r[2][0]))
-        okc = all(clone_of_cell(r) for r in somes) and bool(somes)
-        rep.ob('R3', 'get/returns-clone-of-stored', okc, m['get'].where(), 'returns a clone of the stored Option<Arc<T>> (always the same instance)')
+            gs = guards_of(Tg, bi) or []
+            good = good_any = False
+            for dt, labels, sbi in gs:
+                d = norm(dt)
+                if term_callee_is(d, AT + 'load') and self_field_name(d[2][0]) == statef and len(labels) == 1 and list(labels)[0][0] == 'int':
+                    # `match state.load(..) { COMPLETE => .., _ => .. }`: a switch on the loaded value itself
+                    o = ordering(d[2][1])
+                    good_any = True
+                    K_any = str(list(labels)[0][1])
+                    if o in ('Acquire', 'SeqCst'):
+                        good = True
+                        K = str(list(labels)[0][1])
+                    else:
+                        why = 'the state is loaded with Ordering::%s before the cell is read: seeing COMPLETE does not ' \
+                              'synchronise with the writer\'s release store, the read of the cell races with the initialising write' % o
+                if d[0] == 'bin' and d[1] in ('Eq', 'Ne'):
+                    a, b = d[2], d[3]
+                    ld, cst = (a, b) if term_callee_is(a, AT + 'load') else (b, a)
+                    cst = evalc(mac, cst)
+                    if term_callee_is(ld, AT + 'load') and self_field_name(ld[2][0]) == statef and cst[0] == 'const':
+                        want_truth = (d[1] == 'Eq')
+                        if ('bool', want_truth) in labels:
+                            o = ordering(ld[2][1])
+                            good_any = True
+                            K_any = cst[2]
+                            if o in ('Acquire', 'SeqCst'):
+                                good = True
+                                K = cst[2]
+                            else:
+                                why = 'the state is loaded with Ordering::%s before the cell is read: seeing COMPLETE does not ' \
+                                      'synchronise with the writer\'s release store, the read of the cell races with the initialising write' % o
+            if not good_any:
+                okg_any = False
+            if not good:
+                okg = False
+                if why.endswith('never reads the cell'):
+                    why = 'a read of the cell is not dominated by `state.load(Acquire) == COMPLETE`'
+        rep.ob('R3', rname + '/acquire-before-read', okg, rbody.where(), 'the cell is read only after load(state, Acquire|SeqCst) == %s' % K if okg else why)
+        rep.ob('R3', rname + '/read-only-when-complete', okg_any, rbody.where(), 'the cell is read only after the state was found to be %s' % K_any if okg_any else
+               'a read of the cell is not dominated by a test of the state for one value')
+        if okg_any:
+            # the other edge returns None without touching the cell
+            for sbi in range(len(gb.blocks)):
+                if gb.blocks[sbi]['term']['k'] != 'switch' or gb.blocks[sbi]['cleanup']:
+                    continue
+                dt, edges = Tg.switch_facts(sbi)
+                d = norm(dt)
+                if d[0] == 'bin' and any(term_callee_is(x, AT + 'load') for x in (d[2], d[3])):
+                    neg = [s for s, labs in edges.items() if ('bool', d[1] != 'Eq') in labs]
+                    r = ret_terms(Tg, neg)
+                    okn = bool(r) and all(x[0] == 'adt' and x[2] == 'None' for x in r) and not any(bi in reach(gb, neg) for bi, _ in acc)
+                    rep.ob('R3', rname + '/none-until-complete', okn, rbody.where(), 'any other state => None, cell untouched' if okn else 'get() can return something / touch the cell before the state is COMPLETE')
+            rts = ret_terms(Tg, [0])
+            somes = [r for r in rts if not (r[0] == 'adt' and r[2] == 'None')]
+            def clone_of_cell(r):
+                # Option<Arc<T>>::clone(&*cell)  or  Some(Arc::clone(<view into *cell>))
+                if r[0] == 'adt' and r[2] == 'Some' and r[3]:
+                    r = norm(r[3][0][1])
+                return r[0] == 'call' and isinstance(r[1], str) and r[1].endswith('core::clone::Clone>::clone') and len(r[2]) == 1 and \
+                    any(cell_ptr(y, cellf) for y in walk(r[2][0]))
+            def view_of_cell(r):
+                # a borrowing reader: Option::as_ref(&*cell) / Option::as_deref / Some(&<place in *cell>), nothing computed
+                while r[0] in ('ref', 'deref', 'autoderef', 'unsize') or (r[0] == 'payload') or \
+                        (r[0] == 'call' and isinstance(r[1], str) and r[1] in ('core::option::Option::as_ref', 'core::option::Option::as_deref') and len(r[2]) == 1):
+                    r = norm(r[2][0]) if r[0] == 'call' else norm(r[1])
+                return bool(cell_ptr(r, cellf)) or (r[0] == 'adt' and r[2] == 'Some' and r[3] and view_of_cell(norm(r[3][0][1])))
+            okc = all(clone_of_cell(r) or (view_ok and view_of_cell(norm(r))) for r in somes) and bool(somes)
+            rep.ob('R3', rname + '/returns-clone-of-stored', okc, rbody.where(), 'returns a clone of the stored Option<Arc<T>> (always the same instance)')
+        return gb, Tg, (K if K is not None else K_any), acc
+
+    gb, Tg, K, acc = reader_check('get', m['get'])
     # is_set agrees with get's test
     ib = inl(mac, m['is_set'])
     Ti = Terms(ib)
@@ -396,13 +416,34 @@ def check(ctx, rep, upto=None):
             if callers_ and callers_ <= allowed | {m[n_].path for n_ in ('set', 'get', 'is_set', 'new')}:
                 allowed.add(x_.path)
                 changed_ = True
-    for n_, ib_, T_ in (('get', gb, Tg), ('is_set', ib, Ti)):
+    # other public methods of the holder that read the cell (`get_ref()`): readers like get(), held to the same rules
+    extra_readers = []
+    base_ = {m[n_].path for n_ in ('set', 'get', 'is_set', 'new')}
+    for x_ in mac.all_bodies:
+        if x_.path in allowed | base_ or x_.def_kind != 'AssocFn' or x_.impl_trait or not (x_.impl_self and type_head(x_.impl_self) == H):
+            continue
+        if any(strip_generics(t_.get('callee_full', '')).startswith('core::cell::UnsafeCell::') for _, t_ in x_.calls()):
+            rb_, Tr_, Kr_, _acc = reader_check(x_.short().rsplit('::', 1)[-1], x_, view_ok=True)
+            rep.ob('R3', x_.short().rsplit('::', 1)[-1] + '/same-complete-value', Kr_ == K, x_.where(), 'tests the same COMPLETE value as get()')
+            extra_readers.append((x_, rb_, Tr_))
+            allowed.add(x_.path)
+            allowed |= private_region(mac, x_, within_type=H)
+    # closures written inside those bodies (`self.is_set().then(|| unsafe { &*self.value.get() }.clone())`) that were spliced
+    # into the analysed body at their call: judged there, with the ordering rules
+    spliced_ = set(x_[0] for ib_ in [sb, gb, ib] + [e_[1] for e_ in extra_readers] for x_ in (getattr(ib_, 'inlined', None) or []))
+    for x_ in mac.all_bodies:
+        if x_.def_kind == 'Closure' and x_.path in spliced_ and any(x_.path.startswith(a_ + '::{closure') for a_ in allowed | {m[n_].path for n_ in ('set', 'get', 'is_set')}):
+            allowed.add(x_.path)
+    m_all = dict(m)
+    for x_, rb_, Tr_ in extra_readers:
+        m_all['reader:' + x_.path] = x_
+    for n_, ib_, T_ in [('get', gb, Tg), ('is_set', ib, Ti)] + [('reader:' + x_.path, rb_, Tr_) for x_, rb_, Tr_ in extra_readers]:
         for bi, t in ib_.calls():
             k = strip_generics(t.get('callee_full', ''))
             if k.startswith(AT) and k[len(AT):] in RMW and not ib_.blocks[bi]['cleanup']:
                 ct = norm(T_.call_term(bi))
                 if any(y[0] == 'field' and y[2] == statef for y in walk(ct[2][0])):
-                    offenders.append((m[n_], None, 'modifies the state'))
+                    offenders.append((m_all[n_], None, 'modifies the state'))
     # the state cell is only ever used as the receiver of an atomic operation inside set/get/is_set: a reference to it
     # that is stored in a value (a drop guard ..) or handed to another function could modify it from code not analysed here
     def mentions_state(x):
@@ -419,7 +460,7 @@ def check(ctx, rep, upto=None):
         while x[0] in ('ref', 'deref', 'unsize', 'autoderef', 'load'):
             x = x[1]
         return x
-    for n_, ib_, T_ in (('set', sb, Ts), ('get', gb, Tg), ('is_set', ib, Ti)):
+    for n_, ib_, T_ in [('set', sb, Ts), ('get', gb, Tg), ('is_set', ib, Ti)] + [('reader:' + x_.path, rb_, Tr_) for x_, rb_, Tr_ in extra_readers]:
         for bi, blk in enumerate(ib_.blocks):
             if blk['cleanup'] or blk.get('dead'):
                 continue
@@ -427,14 +468,14 @@ def check(ctx, rep, upto=None):
                 if s['k'] == 'assign' and s['rv']['k'] == 'agg' and s['rv'].get('ak') in ('adt', 'tuple', 'closure', 'array'):
                     v = norm(T_.rvalue_term(s['rv'], bi, si))
                     if mentions_state(v):
-                        offenders.append((m[n_], None, 'stores a reference to the state in a value (%s): it can be modified from a destructor / another function' % fmt(v)[:60]))
+                        offenders.append((m_all[n_], None, 'stores a reference to the state in a value (%s): it can be modified from a destructor / another function' % fmt(v)[:60]))
             t = blk['term']
             if t['k'] == 'call':
                 k = strip_generics(t.get('callee_full', ''))
                 ct = norm(T_.call_term(bi))
                 for ai, a in enumerate(ct[2] if ct[0] == 'call' else ()):
                     if mentions_state(a) and not (k.startswith(AT) and ai == 0):
-                        offenders.append((m[n_], None, 'hands a reference to the state to %s' % k))
+                        offenders.append((m_all[n_], None, 'hands a reference to the state to %s' % k))
     for b in mac.all_bodies:
         nbodies += 1
         if b.path in allowed:
